@@ -294,8 +294,12 @@ Definition valid_manifest (txt : string) : bool :=
   end.
 
 (* the manifest text with every locator reduced to hash+size (the text that the portable data hash digests) *)
+Definition strip_tok (t : string) : string := if is_locator t then loc_strip t else t.
 Definition strip_line (line : string) : string :=
-  join " " (map (fun t => if is_locator t then loc_strip t else t) (split_on c_sp line)).
+  match split_on c_sp line with
+  | name :: rest => join " " (name :: map strip_tok rest)      (* the first token is the stream name *)
+  | [] => ""
+  end.
 Definition strip_manifest (txt : string) : string := join s_nl (map strip_line (split_on c_nl txt)).
 
 (* ---------- store-independent comparison of segment lists ----------
